@@ -121,6 +121,21 @@ def gen_case(rng, tier):
                           max_data=(60 if tier == 'quick' else rng.choice([60, 200, 2000])))
     body, _ = gm.build(st)
     case = {'st': st, 'level': level, 'plen': None}
+    if rng.random() < 0.03:
+        # a part with a very large header block (many extra part headers), read edges inside and around it
+        pad = b'\r\n'.join(b'X-Pad-%d: %s' % (j, b'p' * 90) for j in range(rng.choice([60, 95, 120, 250])))
+        hdr = gm.field_headers({'name': 'big', 'filename': 'x', 'ctype': 'a/b'}) + b'\r\n' + pad
+        parts = [{'headers': hdr.hex(), 'data': b'payload'.hex()},
+                 {'headers': gm.field_headers({'name': 'n', 'value': ''}).hex(), 'data': b'v'.hex()}]
+        st = dict(st, parts=parts)
+        body, layout = gm.build(st)
+        case['st'] = st
+        hs, he = layout[0][0], layout[0][1]
+        cand = [hs + 1, (hs + he) // 2, he - 1, he + 1, he + 3, hs + 8100, hs + 8300]
+        case['cuts'] = sorted({c for c in rng.sample(cand, rng.choice([0, 1, 2])) if 0 < c < len(body)})
+        if level == 'b':
+            case['B'] = rng.choice([64, 4096, 8192, 16384, 102400])
+        return case
     if level == 'a' and rng.random() < 0.04:
         # a large part in front of small ones, and large reads whose edges fall in and around the later header
         # blocks (limits and offsets that only matter far into a body)
@@ -147,6 +162,11 @@ def gen_case(rng, tier):
     case['cuts'] = sorted(set(rng.randrange(1, n) for _ in range(k))) if n > 1 else []
     if level == 'b':
         case['B'] = rng.choice([1, 2, 3, 5, 7, 16, 64, 256, 1024, 102400])
+        if rng.random() < 0.3:
+            # the body arrives chunk-encoded: transfer-chunk edges and read edges both divide it
+            case['tchunks'] = [rng.choice([1, 2, 3, 7, 16, 50, 97, 1000]) for _ in range(rng.choice([1, 2, 3]))]
+            wl = 2 * n + 64
+            case['cuts'] = sorted(set(rng.randrange(1, wl) for _ in range(k)))
     elif rng.random() < 0.15:
         # a second upload parsed at the same time by another parser object, chunks arriving alternately
         st2 = gm.gen_structure(rng, token_only=False, max_parts=3, max_data=40)
@@ -284,9 +304,25 @@ def run_case(case):
     else:
         B = case['B']
         ctype = gm.content_type_header(st['boundary'])
-        o = body_request(body, {'mode': 'cuts', 'cuts': cuts}, B=B, cl=n, ctype=ctype, tempmode='mem',
-                         touch=('forms', 'files'))
-        r = body_request(body, {'mode': 'full'}, B=B, cl=n, ctype=ctype, tempmode='mem', touch=('forms', 'files'))
+        if case.get('tchunks'):
+            wire = bytearray()
+            pos, i = 0, 0
+            while pos < n:
+                sz = min(n - pos, case['tchunks'][i % len(case['tchunks'])])
+                i += 1
+                wire += b'%x\r\n' % sz + body[pos:pos + sz] + b'\r\n'
+                pos += sz
+            wire = bytes(wire) + b'0\r\n\r\n'
+            wcuts = [c for c in cuts if 0 < c < len(wire)]
+            res['probes']['level_b_chunked'] += 1
+            o = body_request(wire, {'mode': 'cuts', 'cuts': wcuts}, B=B, chunked=True, ctype=ctype, tempmode='mem',
+                             touch=('forms', 'files'), cfgvia='ctor')
+            r = body_request(wire, {'mode': 'full'}, B=B, chunked=True, ctype=ctype, tempmode='mem',
+                             touch=('forms', 'files'), cfgvia='ctor')
+        else:
+            o = body_request(body, {'mode': 'cuts', 'cuts': cuts}, B=B, cl=n, ctype=ctype, tempmode='mem',
+                             touch=('forms', 'files'))
+            r = body_request(body, {'mode': 'full'}, B=B, cl=n, ctype=ctype, tempmode='mem', touch=('forms', 'files'))
         got, ref = _canon_b(o), _canon_b(r)
         if case.get('mut') is not None:
             # malformed bodies: *which* client error is reported may depend on which defect a division lets the
